@@ -64,7 +64,45 @@ static void h_rc(const vcase *c) {
     gpage_free(&in);
 }
 
+static void out_meta(const varintRLEMeta *m) {
+    char b[128];
+    if (!m) { out_str("meta", "null"); return; }
+    snprintf(b, sizeof b, "%zu,%zu,%zu,%zu", m->count, m->runCount, m->encodedSize, m->uniqueValues);
+    out_str("meta", b);
+}
+
+/* src_rle_enc Lvals hdr withmeta hexbuf */
+static void h_enc(const vcase *c) {
+    size_t n, len;
+    uint64_t *v = arg_list(c, 0, &n);
+    int hdr = (int)arg_u64(c, 1), wm = (int)arg_u64(c, 2);
+    uint8_t *b = arg_hex(c, 3, &len);
+    gbuf g = gbuf_new(len, 0);
+    gbuf_prefill(&g, b, len);
+    varintRLEMeta meta;
+    size_t w = hdr ? varintRLEEncodeWithHeader(g.p, v, n, wm ? &meta : NULL) : varintRLEEncode(g.p, v, n, wm ? &meta : NULL);
+    out_u64("ret", w);
+    if (strcmp(gbuf_guard(&g), "ok") != 0) out_str("buf", gbuf_guard(&g));
+    else out_hex("buf", g.p, g.size);
+    out_meta(wm ? &meta : NULL);
+    gbuf_free(&g);
+    free(b);
+    free(v);
+}
+
+static void h_size(const vcase *c) {
+    size_t n;
+    uint64_t *v = arg_list(c, 0, &n);
+    varintRLEMeta meta;
+    out_u64("ret", varintRLESize(v, n));
+    out_u64("ben", varintRLEIsBeneficial(v, n));
+    out_u64("ana", varintRLEAnalyze(v, n, &meta));
+    out_meta(&meta);
+    free(v);
+}
+
 static const vreg tab[] = {
     {"src_rle_dec", h_dec}, {"src_rle_run", h_run}, {"src_rle_at", h_at}, {"src_rle_count", h_count}, {"src_rle_rc", h_rc},
+    {"src_rle_enc", h_enc}, {"src_rle_size", h_size},
 };
 VREGISTER(tab)
